@@ -473,7 +473,8 @@ func parseFragment(parser *Parser) (interface{}, error) {
 		}), nil
 	}
 	var typeCondition *ast.Named
-	if parser.Token.Value == "on" {
+	// only the Name `on`: a string token spelling "on" is not the keyword
+	if peek(parser, lexer.NAME) && parser.Token.Value == "on" {
 		if err := advance(parser); err != nil {
 			return nil, err
 		}
@@ -1013,7 +1014,8 @@ func parseObjectTypeDefinition(parser *Parser) (ast.Node, error) {
  */
 func parseImplementsInterfaces(parser *Parser) ([]*ast.Named, error) {
 	types := []*ast.Named{}
-	if parser.Token.Value == "implements" {
+	// only the Name `implements`, not a string token with that content
+	if peek(parser, lexer.NAME) && parser.Token.Value == "implements" {
 		if err := advance(parser); err != nil {
 			return nil, err
 		}
